@@ -101,6 +101,52 @@ def rule_mode(ctx):
         for t in walk_local(fi.node):
             if isinstance(t, ast.If) and 'NRT_MODE' in norm(t.test) and '.mode' in norm(t.test):
                 sw_all.append((fi, t))
+    # functions that change a TempoClock's beats<->seconds map after construction
+    MAPF = ('_base_seconds', '_base_beats', '_tempo', '_beat_dur')
+    tcl = m.classes['TempoClock']
+    map_writers = {}
+    for fi in list(tcl.methods.values()) + list(tcl.setters.values()):
+        if fi.node.name == '__init__':
+            continue
+        if any(isinstance(x, ast.Assign) and any(U.is_self_attr(t_) and t_.attr in MAPF for t_ in x.targets) for x in walk_local(fi.node)):
+            map_writers[fi.fq] = fi
+    ctx.require(len(map_writers) >= 2, 'C10.mode', f'map writers found: {sorted(map_writers)}')
+    for fq, fi in sorted(map_writers.items()):
+        has = any(f2 is fi for f2, _ in sw_all)
+        ctx.ob('C10.mode', f'{fq}:map-writer-has-nrt-counterpart', has,
+               'a function that changes the tempo map must re-key pending NRT tasks (RT queues are keyed by beat)', fi.node, m)
+    # NRT queue entries remember their beat, are re-keyed with the clock's current map, and there is one entry per (clock, task)
+    ct = m.classes['ClockTask']
+    init = ct.methods['__init__']
+    bparam = init.params[1]
+    src = full(init.node)
+    ok = U.before(src, f'self.beats = {bparam}', f'scheduler.add(clock.beats2secs({bparam}), self)')
+    ctx.ob('C10.mode', f'{init.fq}:remembers-beat', ok, 'a pending NRT task keeps the beat it was scheduled for', init.node, m)
+    wk = ct.methods['_wakeup']
+    adds = [c for c in U.calls(wk.node) if U.method_name(c) == 'add' and norm(c.func.value) == 'self.scheduler']
+    ok = bool(adds) and all(norm(c.args[0]) == 'self.clock.beats2secs(self.beats)' for c in adds) and \
+        U.before(full(wk.node), 'self.beats = ', 'self.scheduler.add(self.clock.beats2secs(self.beats), self)')
+    ctx.ob('C10.mode', f'{wk.fq}:requeue-remembers-beat', ok,
+           'a re-queued NRT task records its new beat and is queued at beats2secs(that beat), so a later re-key finds it', wk.node, m)
+    rk = m.classes['ClockScheduler'].methods.get('rekey')
+    ctx.require(rk is not None, 'C10.mode', 'ClockScheduler.rekey not found')
+    cp = rk.params[1]
+    loops = [x for x in walk_local(rk.node) if isinstance(x, ast.For)]
+    ok = False
+    if len(loops) == 1:
+        lp = loops[0]
+        it = norm(lp.iter)
+        tv = norm(lp.target.elts[1]) if isinstance(lp.target, ast.Tuple) and len(lp.target.elts) == 2 else None
+        body = [norm(x) for x in lp.body]
+        ok = it in ('list(self.queue)', 'tuple(self.queue)') and tv is not None and \
+            body == [f'if {tv}.clock is {cp}: self.add({cp}.beats2secs({tv}.beats), {tv})']
+    ctx.ob('C10.mode', f'{rk.fq}', ok, 'rekey re-queues exactly the pending tasks of that clock at beats2secs(their beat), '
+                                      'iterating over a copy of the queue', rk.node, m)
+    from .c09 import identity_fields
+    idf = identity_fields(ctx.repo, ct)
+    ctx.ob('C10.mode', f'{ct.fq}:one-entry-per-task-and-clock', idf == {'clock', 'task'},
+           f'RT queues replace the pending entry of a task that is scheduled again (TaskQueue.add); the NRT wrapper must compare '
+           f'equal exactly when clock and task are the same objects; identity fields found: {idf}', ct.node, m)
     for fi, t in sw_all:
         if fi.qualname.split('.')[-1] in ('sched', 'sched_abs') and fi.qualname.split('.')[0] in ('SystemClock', 'TempoClock', 'AppClock'):
             continue
@@ -111,12 +157,27 @@ def rule_mode(ctx):
         elif fi.qualname.endswith('._tick'):
             ok = nb == ['return None']
             why = 'no ticking thread in NRT'
+        elif fi.fq in map_writers:
+            ok = nb == ['_libsc3.main._clock_scheduler.rekey(self)']
+            why = ('the RT branch notifies the clock thread, whose beat-keyed queue then follows the new map; the NRT '
+                   'counterpart is re-keying the pending tasks of this clock')
         else:
             ok = nb == ['return']
             why = 'thread/condition handling has no NRT counterpart'
         ctx.ob('C10.mode', f'{fi.fq}:nrt-branch[{norm(t.test)}]', ok, f'NRT branch is {nb}: {why}', t, m, nontrivial=False)
         n += 1
     ctx.require(n >= 12, 'C10.mode', f'only {n} mode switches found')
+    # entry points documented to act at the caller's logical time must not reach a physical-time read:
+    # in NRT physical == logical, so such a read is invisible there and shifts every later time in RT
+    from .c12 import self_closure
+    from .c05 import phys_in
+    tcl = m.classes['TempoClock']
+    for f in (tcl.setters['tempo'], tcl.setters['beats'], tcl.methods['beats'], tcl.methods['sched'], tcl.methods['sched_abs'],
+              tcl.methods['play'], tcl.methods['next_time_on_grid'], tcl.methods['next_bar'], tcl.methods['time_to_next_beat']):
+        phys = [x.fq for x in self_closure(ctx, tcl, f).values() if phys_in(x.node)]
+        ctx.ob('C10.mode', f'{f.fq}:logical-root', not phys,
+               f'{f.fq} acts at the logical time but reaches a physical-time read through {phys}; NRT hides this, RT results '
+               f'then depend on wake-up jitter', f.node, m)
     # the mode property
     for cname in ('MetaClock', 'TempoClock'):
         p = m.classes[cname].methods['mode']
@@ -346,6 +407,23 @@ def run(ctx):
 
 
 MUTANTS = [
+    dict(rule='C10.mode', name='(fix reverted) tempo setter NRT branch does nothing', file='sc3/base/clock.py',
+         old="        # en tempo_\n        mdl.NotificationCenter.notify(self, 'tempo')\n        if self.mode == _libsc3.main.NRT_MODE:\n            _libsc3.main._clock_scheduler.rekey(self)\n",
+         new="        # en tempo_\n        mdl.NotificationCenter.notify(self, 'tempo')\n        if self.mode == _libsc3.main.NRT_MODE:\n            return\n"),
+    dict(rule='C10.mode', name='(fix reverted) ClockTask without identity eq/hash', file='sc3/base/clock.py',
+         old="    def __eq__(self, other):\n        return type(other) is ClockTask\\\n            and self.clock is other.clock and self.task is other.task\n\n    def __hash__(self):\n        return hash((id(self.clock), id(self.task)))\n",
+         new=""),
+    dict(rule='C10.mode', name='ClockTask equality ignores the clock', file='sc3/base/clock.py',
+         old="            and self.clock is other.clock and self.task is other.task\n", new="            and self.task is other.task\n"),
+    dict(rule='C10.mode', name='rekey re-queues every pending task with this clock map', file='sc3/base/clock.py',
+         old="            if clock_task.clock is clock:\n                self.add(clock.beats2secs(clock_task.beats), clock_task)",
+         new="            self.add(clock.beats2secs(clock_task.beats), clock_task)"),
+    dict(rule='C10.mode', name='re-queued task keeps stale beat', file='sc3/base/clock.py',
+         old="                self.beats = beats + delta\n                self.scheduler.add(self.clock.beats2secs(self.beats), self)",
+         new="                self.scheduler.add(self.clock.beats2secs(beats + delta), self)"),
+    dict(rule='C10.mode', name='tempo setter re-bases at elapsed time (seed C10-b)', file='sc3/base/clock.py',
+         old="        beats = self.beats\n        self._base_seconds = self.beats2secs(beats)\n        self._base_beats = beats\n        self._tempo = value\n        self._beat_dur = 1.0 / self._tempo\n        # en tempo_\n        mdl.NotificationCenter.notify(self, 'tempo')\n        if self.mode == _libsc3.main.NRT_MODE:\n            _libsc3.main._clock_scheduler.rekey(self)\n        else:\n            with self._sched_cond:\n                self._sched_cond.notify()  # NOTE: is notify_one in C++.\n",
+         new="        self.etempo(value)\n"),
     dict(rule='C10.mode', name='NRT branch of SystemClock.sched loses base time', file='sc3/base/clock.py',
          old="        if cls.mode == _libsc3.main.NRT_MODE:\n            seconds = _libsc3.main.current_tt._seconds\n            seconds += delta\n            if seconds == float('inf'):\n                return\n            ClockTask(seconds, cls, item, _libsc3.main._clock_scheduler)\n        else:\n            with cls._sched_cond:\n                seconds",
          new="        if cls.mode == _libsc3.main.NRT_MODE:\n            seconds = delta\n            if seconds == float('inf'):\n                return\n            ClockTask(seconds, cls, item, _libsc3.main._clock_scheduler)\n        else:\n            with cls._sched_cond:\n                seconds"),
@@ -355,7 +433,7 @@ MUTANTS = [
     dict(rule='C10.mode', name='TempoClock.sched_abs NRT adds current beats', file='sc3/base/clock.py',
          old="            self._sched_add_nrt(beat, item)", new="            self._sched_add_nrt(beat + self.beats, item)"),
     dict(rule='C10.wake', name='bool test dropped in NRT wake-up', file='sc3/base/clock.py',
-         old="            if isinstance(delta, (int, float)) and not isinstance(delta, bool):\n                self.scheduler.add(", new="            if isinstance(delta, (int, float)):\n                self.scheduler.add("),
+         old="            if isinstance(delta, (int, float)) and not isinstance(delta, bool):\n                self.beats = ", new="            if isinstance(delta, (int, float)):\n                self.beats = "),
     dict(rule='C10.wake', name='NRT wake-up lets exceptions escape', file='sc3/base/clock.py',
          old="        except Exception:\n            _logger.error(\n                '%s(%s) scheduled on ClockScheduler',", new="        except ValueError:\n            _logger.error(\n                '%s(%s) scheduled on ClockScheduler',"),
     dict(rule='C10.rng', name='builtin draws from module-level random', file='sc3/base/builtins.py',
